@@ -6005,8 +6005,15 @@ int32 psX509AuthenticateCert(psPool_t *pool, psX509Cert_t *subjectCert,
                 Valid CA to load: i2 or root
                 Invalid CA to load: l or i1
              */
+            /* The trusted copy must be the very same certificate: equal
+               signature octets alone prove nothing (anyone can copy them
+               into a certificate of their own making), so the digest of
+               the signed content has to be equal as well. */
             if (sc->signatureLen == ic->signatureLen
-                && memcmpct(sc->signature, ic->signature, sc->signatureLen) == 0)
+                && memcmpct(sc->signature, ic->signature, sc->signatureLen) == 0
+                && sc->sigHashLen > 0
+                && sc->sigHashLen == ic->sigHashLen
+                && memcmpct(sc->sigHash, ic->sigHash, sc->sigHashLen) == 0)
             {
                 /* Skip some of the signature and issuer checks */
                 goto L_INTERMEDIATE_ROOT;
